@@ -673,6 +673,28 @@ pub fn apply_plan(plan: &mut Plan, options: &ApplyOptions) -> Result<()> {
         }
     }
 
+    // ... and that no two planned renames end at the same place: the second rename(2) would
+    // silently replace the entry the first one just moved there (a plan from `replace` with a
+    // pattern such as foo[-_]bar, a hand-written or merged plan file)
+    let mut destinations: HashMap<&Path, &Path> = HashMap::new();
+    for rename in &plan.paths {
+        if rename.new_path.as_os_str().is_empty() || rename.new_path == rename.path {
+            continue;
+        }
+        if let Some(other) = destinations.insert(rename.new_path.as_path(), rename.path.as_path()) {
+            if other != rename.path.as_path() {
+                let e = anyhow!(
+                    "Rename conflict: {} and {} would both be renamed to {}",
+                    other.display(),
+                    rename.path.display(),
+                    rename.new_path.display()
+                );
+                state.log(&format!("Refusing to apply: {}", e))?;
+                return Err(e);
+            }
+        }
+    }
+
     // STEP 1: Store original content BEFORE any changes for diff generation
     let mut original_contents: HashMap<PathBuf, String> = HashMap::new();
     if options.create_backups {
